@@ -538,3 +538,100 @@ theorem stepAt_resolve (G : Table) (env : Env) (op : Op) : (p : List Key) → (r
       exact stepAt_resolve G env op rest c r h
 
 end Pg.C08
+
+namespace Pg.C08
+open Tree
+
+/-! ### round 3: a call that does not end normally leaves everything as it was -/
+
+/-- Every single-write entry point either ends normally or leaves its receiver exactly as it was
+(whatever the error: permission, index, key, value, type). -/
+theorem nodeStep_ok_or_unchanged (G : Table) (env : Env) (t : Tree) (op : Op) (hb : op.isBatch = false) :
+    (nodeStep G env t op).2 = .ok ∨ (nodeStep G env t op).1 = t := by
+  cases t with
+  | leaf a => cases op <;> exact Or.inr rfl
+  | list f xs =>
+    cases op <;> simp only [nodeStep] <;> first
+      | (right; rfl)
+      | (left; rfl)
+      | (right; trivial)
+      | (left; trivial)
+      | (simp [Op.isBatch] at hb; done)
+      | (simp only [lSetItem, lSetSlice, lDelItem, lDelSlice, lIAdd, lIMul, lAppend, lExtend, lInsert, lPop, lRemove,
+          lClear, lSort, lReverse]; repeat' split) <;> first | (right; rfl) | (left; rfl) | (right; trivial) | (left; trivial)
+  | dict f kvs =>
+    cases op <;> simp only [nodeStep] <;> first
+      | (right; rfl)
+      | (left; rfl)
+      | (right; trivial)
+      | (left; trivial)
+      | (simp [Op.isBatch] at hb; done)
+      | (simp only [dSetItem, dDelItem, dSetDefault, dPop, dPopItem, dClear, dSetAttr, dDelAttr];
+          repeat' split) <;> first | (right; rfl) | (left; rfl) | (right; trivial) | (left; trivial)
+  | obj f c attrs =>
+    cases op <;> simp only [nodeStep] <;> first
+      | (right; rfl)
+      | (left; rfl)
+      | (right; trivial)
+      | (left; trivial)
+      | (simp [Op.isBatch] at hb; done)
+      | (simp only [oSetAttr]; repeat' split) <;> first | (right; rfl) | (left; rfl) | (right; trivial) | (left; trivial)
+
+theorem stepAt_ok_or_unchanged (G : Table) (env : Env) (op : Op) (hb : op.isBatch = false) :
+    (p : List Key) → (root : Tree) → (stepAt G env root p op).2 = .ok ∨ (stepAt G env root p op).1 = root
+  | [], root => nodeStep_ok_or_unchanged G env root op hb
+  | k :: rest, root => by
+    simp only [stepAt]
+    cases hc : root.child k with
+    | none => exact Or.inr rfl
+    | some c =>
+      simp only []
+      rcases stepAt_ok_or_unchanged G env op hb rest c with h | h
+      · exact Or.inl h
+      · exact Or.inr (by rw [h]; exact setChild_child hc)
+
+theorem set_self {α : Type} : (l : List α) → (i : Nat) → (x : α) → l[i]? = some x → l.set i x = l
+  | [], _, _, h => by simp at h
+  | y :: ys, 0, x, h => by simp at h; subst h; rfl
+  | y :: ys, i + 1, x, h => by
+    simp at h
+    simp [set_self ys i x h]
+
+/-- FOREST: a call that does not end normally leaves the whole forest as it was … -/
+theorem stepF_ok_or_unchanged (G : Table) (F : Forest) (c : Call) (hb : c.op.isBatch = false) :
+    (stepF G F c).2 = .ok ∨ (stepF G F c).1 = F := by
+  unfold stepF
+  cases ht : F[c.tree]? with
+  | none => exact Or.inr rfl
+  | some t =>
+    simp only []
+    rcases stepAt_ok_or_unchanged G c.env c.op hb c.path t with h | h
+    · exact Or.inl h
+    · exact Or.inr (by rw [h]; exact set_self F c.tree t ht)
+
+/-- … and whatever it does, the other trees of the forest are not touched. -/
+theorem stepF_other (G : Table) (F : Forest) (c : Call) (j : Nat) (hj : j ≠ c.tree) :
+    (stepF G F c).1[j]? = F[j]? := by
+  unfold stepF
+  cases ht : F[c.tree]? with
+  | none => rfl
+  | some t => simp [hj.symm]
+
+/-- HISTORIES: the forest after a history of single-write calls is the forest after the calls of
+that history that ended normally; every other call (refused for write protection or failing for
+any other reason) left no trace anywhere. -/
+theorem runF_accepted (G : Table) : (hs : List Call) → (F : Forest) → (∀ c ∈ hs, c.op.isBatch = false) →
+    runF G F hs = runF G F (accepted G F hs)
+  | [], F, _ => rfl
+  | c :: rest, F, hb => by
+    have hrest : ∀ c' ∈ rest, c'.op.isBatch = false := fun c' h => hb c' (List.mem_cons_of_mem _ h)
+    simp only [runF, accepted]
+    split
+    · simp only [runF]
+      exact runF_accepted G rest _ hrest
+    · next hne =>
+      rcases stepF_ok_or_unchanged G F c (hb c (by simp)) with h | h
+      · exact absurd h hne
+      · rw [h]; exact runF_accepted G rest F hrest
+
+end Pg.C08
